@@ -17,6 +17,8 @@ OUTSIDE = "the operating system's file semantics: open()/Path.unlink are replace
 ASSUMPTIONS = ["stream model of open(mode, newline=, encoding=) and Path.unlink per the io documentation (symex/iomodel.py; differential self-test against real files)",
                "records contain no CR/LF (C09 shows that no emitter produces them)"]
 
+# every claim of this harness speaks about the same written bytes: a symbolic 'wrong encoding' refutation shows up as a wrong byte count concretely
+REPLAY_ANY_CLAIM = True
 NAMES = ["x.gwl", "X.GWL", "x.txt", "x", "x.gwl.bak", "gwl"]
 
 
@@ -232,8 +234,8 @@ def judge(ctx, p, outcome):
             if ch is not e:
                 ctx.violate(f"C17: byte {j} of the file is not the character of the record at that place")
                 return
+            from symex import core
             if enc in ("latin_1", "latin1"):
-                from symex import core
                 ctx.prove(core.SBool(ctx, core.z3.And(ch >= 0, ch <= 255)), "C17: a record character is not representable as one Latin-1 byte")
             else:
                 # any other encoding must still produce exactly this one byte: only true for ASCII under utf-8
